@@ -426,6 +426,12 @@ func (c *Ctx) resetClears(field string) bool {
 				if _, isLoad := st.Val.(*ssa.UnOp); isLoad {
 					ok = true
 				}
+				// a slice truncated to length 0 (`e.f = e.f[:0]`) carries nothing over
+				if sl, isSl := st.Val.(*ssa.Slice); isSl && sl.High != nil {
+					if k, isK := sl.High.(*ssa.Const); isK && k.Value != nil && k.Value.ExactString() == "0" {
+						ok = true
+					}
+				}
 			}
 		}
 	})
